@@ -21,6 +21,7 @@ from pony.orm.dbproviders.sqlite import SQLitePool
 import ponyutil
 
 MARK = 'select 1'
+ROOT_PID = os.getpid()
 K_OPEN = 'fork-inside-open-db_session:child-statements-go-to-the-parents-connection'
 
 # ---------------------------------------------------------------------------------------------------------------
@@ -188,7 +189,32 @@ FIXED = [
     [['act', 0, 'connect'], ['act', 0, 'drop'], ['act', 0, 'connect'], ['act', 0, 'connect'], ['act', 0, 'release'], ['act', 0, 'release'], ['act', 0, 'disconnect'], ['act', 0, 'disconnect']],
 ]
 
+def foreign_connect(real):
+    for p, r in sorted(real.items()):
+        for o in r.get('obs', []):
+            if o[0] == 'connect' and isinstance(o[1], list) and str(o[1][0]) != p: return p, o
+    return None
+
+MINIMAL = [['act', 0, 'connect'], ['act', 0, 'release'], ['fork', 0], ['act', 1, 'connect']]
+
+def shrink(kind, script, path):
+    """smallest script (canonical minimal one first, then greedy deletion of events) on which the real pool still hands a foreign connection out"""
+    if foreign_connect(interp(kind, MINIMAL, path)): return MINIMAL
+    cur = list(script); budget = 25
+    i = 0
+    while i < len(cur) and budget > 0:
+        cand = cur[:i] + cur[i + 1:]
+        # deleting a fork renumbers nothing we keep only if no later event refers to a process that would not exist
+        n = 1 + sum(1 for e in cand if e[0] == 'fork')
+        ok = all(e[1] < n for e in cand)
+        if ok:
+            budget -= 1
+            if foreign_connect(interp(kind, cand, path)): cur = cand; continue
+        i += 1
+    return cur
+
 def pool_tie(ctx, work):
+    shrunk = set()
     if not ctx.driver.ok:
         ctx.note('driver unavailable: pool tie skipped'); return
     rng = ctx.rng
@@ -218,11 +244,13 @@ def pool_tie(ctx, work):
             ctx.divergence('pool model and the real pool under os.fork() disagree', {'kind': kind, 'events': script, 'process': bad[0]},
                            model=reps.get(bad[0]), impl=real.get(bad[0]))
         # the theorem's statement evaluated on the REAL run: every connection returned to process p was created by p
-        for p, r in real.items():
-            for o in r.get('obs', []):
-                if o[0] == 'connect' and isinstance(o[1], list) and str(o[1][0]) != p:
-                    ctx.violation('Pool.connect returned a connection created by another process', {'kind': kind, 'events': script, 'process': p},
-                                  observed=o, expected='a connection created by process ' + p, key='pool-connect-foreign:%s:%s' % (kind, json.dumps(script)))
+        bad = foreign_connect(real)
+        if bad and kind not in shrunk:
+            shrunk.add(kind)
+            small = shrink(kind, script, path)
+            p, o = foreign_connect(interp(kind, small, path))
+            ctx.violation('Pool.connect returned to a process a connection created by another process (its parent)', {'kind': kind, 'events': small, 'process': p},
+                          observed=o, expected='a connection created by process ' + p, key='pool-connect-foreign:%s:%s' % (kind, json.dumps(small)))
     Pool.forked_connections[:] = []
 
 # ---------------------------------------------------------------------------------------------------------------
@@ -388,6 +416,8 @@ def model_witness(ctx):
         ctx.divergence('model witness 2 (stale disconnect closes the inherited connection) not reproduced by the driver', w2, model=o2, impl=None)
 
 def run(ctx):
+    global ROOT_PID
+    ROOT_PID = os.getpid()
     work = ponyutil.workdir('c36')
     try:
         model_witness(ctx)
@@ -397,9 +427,16 @@ def run(ctx):
             for point in ('idle', 'pooled', 'open'):
                 for mode in ('sessions-only', 'disconnect-first'):
                     if point == 'open' and mode == 'disconnect-first': continue     # db.disconnect() is refused inside db_session
-                    fork_point_run(ctx, work, point, mode, n); n += 1
+                    try:
+                        fork_point_run(ctx, work, point, mode, n)
+                    except Exception as e:
+                        if os.getpid() != ROOT_PID: os._exit(1)
+                        ctx.violation('the parent could not use the database around the fork', {'fork_point': point, 'child': mode, 'database': 'file-backed SQLite'},
+                                      observed=type(e).__name__ + ': ' + str(e)[:200], expected='sessions of the parent work', key='fork:%s:%s:parent-error' % (point, mode))
+                    n += 1
     finally:
-        ponyutil.rmtree(work)
+        if os.getpid() == ROOT_PID: ponyutil.rmtree(work)
+        else: os._exit(1)
 
 def replay(ctx, data):
     run(ctx)
